@@ -17,7 +17,7 @@ import (
 	"github.com/ProjectSerenity/firefly/kernel/zzverif"
 )
 
-func vfNoPrintf(format string, args ...interface{})              {}
+func vfNoPrintf(format string, args ...interface{})               {}
 func vfNoFprintf(w io.Writer, format string, args ...interface{}) {}
 
 // ---------- C05 ----------
